@@ -146,7 +146,9 @@ type jEntity struct {
 	Statuses []string
 	Events   []*jEvent
 	Commands []*jService
-	Summary  [][]*jF
+	// Schemas are object / enum / oneof declarations written inside the entity block
+	Schemas []*jDecl
+	Summary [][]*jF
 	// SummaryNames[i] names Summary[i] ("" = the default "Summary")
 	SummaryNames []string
 	// query options
@@ -671,6 +673,10 @@ func (r *j5Renderer) entity(depth int, e *jEntity) {
 	for _, c := range e.Commands {
 		r.sb.WriteString("\n")
 		r.service(depth+1, c, "command")
+	}
+	for _, d := range e.Schemas {
+		r.sb.WriteString("\n")
+		r.decl(depth+1, d)
 	}
 	for i, s := range e.Summary {
 		r.sb.WriteString("\n")
